@@ -94,6 +94,8 @@ def main():
                     skipped += 1
                     continue
                 meta = json.load(open(os.path.join(os.path.dirname(sd), "meta.json")))
+                if meta.get("not_decided_because"):
+                    continue            # a documented limit (run_seeded.py prints it as LIMIT): nothing to survive
                 props = meta.get("caught_by") or [meta["property"]]
                 pairs.append((rf, {"id": "seeded:" + os.path.basename(os.path.dirname(sd)), "props": props, "patch": sd, "file": None}, base))
     bad = 0
